@@ -11,6 +11,8 @@ CLAIMED = {
  "C07": ("exploration", "Generated coroutine bodies and driver actions (resumes incl. refused ones, clock advances, syscall wake-ups, direct transition calls, panicking listeners) on one thread; recording listeners: every reported (old,new) must be an edge of the documented graph, chained, followed by exactly one matching callback; refused operations change nothing; finished coroutines never change or run code.", "6 C07"),
  "C08": ("exploration", "Typed coroutine<u64,u64,u64> with unique random payloads in both directions at 0-50 suspend points, return or panic (&'static str and String payloads) at the end, panicking listeners: k-th resume argument = k-th suspend result, k-th yield = k-th reported value, one Complete, Error carries the panic message, nothing unwinds into the caller.", "6 C08"),
  "C09": ("exploration", "Same runs as C07: each body records what it asked for in its latest yield (plain / delay / until / cancel / a yield made in a syscall state) and the resume's reported wake-up time and cancellation must be exactly that, whatever other coroutines on the thread asked for before.", "6 C09"),
+ "C25": ("exploration", "Histories of put/get/get_mut/remove over several coroutines and keys with drop-counting values, executed by the coroutine bodies themselves and through the handles, each coroutine dropped at a generated point (never started / suspended mid-body / finished): map model for return values, privacy across coroutines, every value still stored is dropped exactly once with its coroutine.", "6 C25"),
+ "C26": ("exploration", "Fresh process per run; 2-4 threads race on their first get_or_default / init_bean+get_bean of the same names, and on Scheduler::new (global queue bean), under seeded schedules with a scheduling point before every atomic and map operation: all addresses for one name are equal and equal to later lookups; work submitted through one concurrently created scheduler is reachable from the other.", "6 C26"),
 }
 NOTE = "Trusted: the vsim engine and shims (sequentially consistent interleavings at shim operations only; no weak-memory effects, no data races inside one uninstrumented operation), crossbeam Injector/SkipMap treated as linearizable, the textual std->vstd rewrite of the generated copy. Sampling, not enumeration."
 props = [json.loads(l) for l in open(os.path.join(V, "properties.jsonl"))]
@@ -21,7 +23,7 @@ m = {
  "hooks": {
   "guard": "acl_dev_open_coroutine_verif",
   "enable": "no hook commits in /repo: ./check regenerates /verif/build/simcore (a copy of /repo/core with std::{sync,thread,time,collections} -> vstd and dependencies substituted by shim crates, tools/gen_simcore.py) from the working tree and builds the harness against it",
-  "baseline_off_cmd": "cd /repo && cargo test --workspace --no-fail-fast --offline",
+  "baseline_off_cmd": "cd /repo && cargo nextest run --workspace --no-fail-fast --tool-config-file pb:/w/lib/nextest.toml --profile pb --test-threads 8 --offline",
   "source_commits": [],
   "add_only": True,
  },
